@@ -24,7 +24,7 @@ import seams
 import world as W
 from peer import PEER
 
-TB_KINDS = {'tb', 'tbstack', 'tbbare', 'tbell', 'tbwrongmsg', 'tbwrongtype', 'tbdetail', 'tbdots', 'tbdotssuffix', 'tbinner'}
+TB_KINDS = {'tb', 'tbstack', 'tbbare', 'tbell', 'tbwrongmsg', 'tbwrongtype', 'tbdetail', 'tbdots', 'tbdotssuffix', 'tbinner', 'tbell2'}
 # 'tbdotsonly' (header + ellipsis, no final line) is deliberately absent: it is not a traceback block
 
 
@@ -76,7 +76,10 @@ def ref_exec_step(st, ns):
     if body and isinstance(body[-1], ast.Expr) and len(body) == 1:
         last_expr = ast.Expression(body[-1].value)
         body = body[:-1]
-    buf = io.StringIO()
+    # one stream for the whole reference execution (a statement may keep a reference to
+    # sys.stdout and write through it later): this step's output is what gets appended
+    buf = ns.setdefault('__ref_stdout__', io.StringIO())
+    pos0 = len(buf.getvalue())
     old = sys.stdout
     sys.stdout = buf
     try:
@@ -102,7 +105,7 @@ def ref_exec_step(st, ns):
             res['exc'] = ex
     finally:
         sys.stdout = old
-    res['out'] = buf.getvalue()
+    res['out'] = buf.getvalue()[pos0:]
     return res
 
 
@@ -137,6 +140,11 @@ def tb_matches(st, ex, flags):
     same_cls_short = nom_cls.rsplit('.', 1)[-1] == got_cls.rsplit('.', 1)[-1]
     ied = flags['IGNORE_EXCEPTION_DETAIL']
     if kind == 'tbdotssuffix':
+        return False
+    if kind == 'tbell2':
+        # (the last word would have to occur twice)
+        if ied:
+            return same_cls_short
         return False
     if kind == 'tbinner':
         # the want names the exception that was being handled; what matters is the one raised
